@@ -906,6 +906,16 @@ func (p *Parser) Parse() (Statement, error) {
 		FieldTypes: selectStmt.FieldTypes,
 	}
 
+	// Check the select fields first: it resolves the field names they use,
+	// and the types of the fields are only known after that. Everything
+	// below (order by, group by, where) looks the fields up by name.
+	err = selectStmt.ValidateFields(checkCtx)
+	if err != nil {
+		// The statement is handed back with the error, as far as it got
+		selectStmt.Where = &WhereStmt{Pos: wherePos, Expr: expr}
+		return selectStmt, err
+	}
+
 	for p.tok != nil {
 		switch p.tok.Tp {
 		case ORDER:
@@ -962,6 +972,5 @@ func (p *Parser) Parse() (Statement, error) {
 	selectStmt.Limit = limitStmt
 	selectStmt.Order = orderStmt
 	selectStmt.GroupBy = groupByStmt
-	err = selectStmt.ValidateFields(checkCtx)
-	return selectStmt, err
+	return selectStmt, nil
 }
